@@ -4,6 +4,7 @@ from __future__ import annotations
 import json
 import random
 import re
+import unicodedata
 from fractions import Fraction
 
 from .. import common as cm
@@ -142,19 +143,88 @@ CONFIGS = {
     'metal-J': dict(length='angstrom', time='ps', energy='J', charge='C'),
     'cm-eV': dict(length='cm', mass='amu', energy='eV', charge='e'),
     'random': dict(seed=20240928),      # numericalunits' random working units: all five base units non-trivial
+    # named time units next to a derived length / a derived mass / nothing derived; a single keyword
+    'amu-fs-eV': dict(mass='amu', time='fs', energy='eV', charge='e'),          # length derived
+    'um-ns-kJ': dict(length='um', time='ns', energy='kJ'),                      # mass derived, charge left in SI
+    'pm-kg-fs': dict(length='pm', mass='kg', time='fs', charge='C'),
+    'time-ps': dict(time='ps'),
+    'energy-eV': dict(energy='eV'),                                             # mass derived from the energy alone
 }
+# working units a generated configuration ('cfg:length=nm,time=fs,...': up to four keywords, never over-determined) may name
+CFG_POOL = {'length': ['angstrom', 'nm', 'm', 'cm', 'pm', 'um', 'Å'], 'mass': ['amu', 'g', 'kg'],
+            'time': ['ps', 's', 'fs', 'ns'], 'energy': ['eV', 'J', 'mJ', 'kJ'], 'charge': ['e', 'C']}
 UNITS = {
-    'length': ['angstrom', 'nm', 'm', 'cm', 'pm'],
-    'pressure': ['GPa', 'eV/angstrom^3', 'MPa', 'bar'],
-    'energy': ['eV', 'J', 'mJ/mol'],
-    'force': ['eV/angstrom', 'nN'],
-    'charge': ['e', 'C'],
-    'mass': ['amu', 'g'],
+    'length': ['angstrom', 'nm', 'm', 'cm', 'pm', 'Å'],
+    'pressure': ['GPa', 'eV/angstrom^3', 'MPa', 'bar', 'kg/(m*s^2)', 'Pa'],
+    'energy': ['eV', 'J', 'mJ/mol', 'kg*m^2/s^2'],
+    'force': ['eV/angstrom', 'nN', 'kg*m/s^2'],
+    'charge': ['e', 'C', 'A*s'],
+    'mass': ['amu', 'g', 'kg'],
     'time': ['ps', 's', 'fs'],
-    'velocity': ['angstrom/ps', 'm/s'],
+    'velocity': ['angstrom/ps', 'm/s', 'nm/fs'],
     'area*': ['angstrom^2', 'nm*nm'],
+    'temperature': ['K'],
+    'misc': ['THz', 'C/m^2', 'V/m', 'kg/m^3', 'J/(kg*K)'],
 }
 ALL_UNITS = [u for us in UNITS.values() for u in us]
+
+# ---- the harness's own unit table: SI value and dimension exponents (length, mass, time, charge, temperature) of every
+#      unit name it uses, written down here from the definitions (SI prefixes, CODATA 2022 exact / recommended values) -
+#      nothing is read from atomman, and the base factors of a working-unit configuration come from plain arithmetic
+#      on these numbers (own_base), so an internally inconsistent table built by uc.reset_units is visible.
+SI_UNITS = {
+    'm': (1.0, (1, 0, 0, 0, 0)), 'cm': (1e-2, (1, 0, 0, 0, 0)), 'um': (1e-6, (1, 0, 0, 0, 0)),
+    'nm': (1e-9, (1, 0, 0, 0, 0)), 'pm': (1e-12, (1, 0, 0, 0, 0)), 'angstrom': (1e-10, (1, 0, 0, 0, 0)),
+    'Å': (1e-10, (1, 0, 0, 0, 0)),
+    'kg': (1.0, (0, 1, 0, 0, 0)), 'g': (1e-3, (0, 1, 0, 0, 0)), 'amu': (1.66053906892e-27, (0, 1, 0, 0, 0)),
+    's': (1.0, (0, 0, 1, 0, 0)), 'ns': (1e-9, (0, 0, 1, 0, 0)), 'ps': (1e-12, (0, 0, 1, 0, 0)),
+    'fs': (1e-15, (0, 0, 1, 0, 0)),
+    'Hz': (1.0, (0, 0, -1, 0, 0)), 'THz': (1e12, (0, 0, -1, 0, 0)),
+    'C': (1.0, (0, 0, 0, 1, 0)), 'e': (1.602176634e-19, (0, 0, 0, 1, 0)), 'A': (1.0, (0, 0, -1, 1, 0)),
+    'K': (1.0, (0, 0, 0, 0, 1)),
+    'J': (1.0, (2, 1, -2, 0, 0)), 'mJ': (1e-3, (2, 1, -2, 0, 0)), 'kJ': (1e3, (2, 1, -2, 0, 0)),
+    'eV': (1.602176634e-19, (2, 1, -2, 0, 0)),
+    'N': (1.0, (1, 1, -2, 0, 0)), 'nN': (1e-9, (1, 1, -2, 0, 0)),
+    'Pa': (1.0, (-1, 1, -2, 0, 0)), 'MPa': (1e6, (-1, 1, -2, 0, 0)), 'GPa': (1e9, (-1, 1, -2, 0, 0)),
+    'bar': (1e5, (-1, 1, -2, 0, 0)),
+    'V': (1.0, (2, 1, -2, -1, 0)),
+    'mol': (6.02214076e23, (0, 0, 0, 0, 0)),
+}
+# roundings (in units of 2^-53, relative) between this table's value of a name and numericalunits' chain of derived
+# units for it: at most 5 base factors with a power each + the SI value here, at most 8 products / quotients there,
+# a square root and its operand when a base unit is derived from the energy
+NAME_ULPS = 24.0
+
+
+def cfg_spec(name):
+    """keyword arguments of uc.reset_units for a configuration name ('cfg:key=unit,...' = a generated one)."""
+    if name.startswith('cfg:'):
+        return dict(kv.split('=') for kv in name[4:].split(','))
+    return CONFIGS[name]
+
+
+def own_base(spec):
+    """(m, kg, s, C, K) in working units of a keyword configuration, from the SI values of the chosen units alone:
+    a chosen unit has the value 1; what is not chosen stays SI; an energy unit fixes the first of mass, time, length
+    that is not chosen (J = kg m^2 / s^2)."""
+    m = 1.0 / SI_UNITS[spec['length']][0] if 'length' in spec else 1.0
+    kg = 1.0 / SI_UNITS[spec['mass']][0] if 'mass' in spec else 1.0
+    s = 1.0 / SI_UNITS[spec['time']][0] if 'time' in spec else 1.0
+    C = 1.0 / SI_UNITS[spec['charge']][0] if 'charge' in spec else 1.0
+    if 'energy' in spec:
+        J = 1.0 / SI_UNITS[spec['energy']][0]
+        if 'mass' not in spec:
+            kg = J * s ** 2 / m ** 2
+        elif 'time' not in spec:
+            s = (kg * m ** 2 / J) ** 0.5
+        elif 'length' not in spec:
+            m = (J * s ** 2 / kg) ** 0.5
+        else:
+            raise ValueError(f'over-determined working units {spec}')
+    return (m, kg, s, C, 1.0)
+
+
+_BASE = {'now': None}        # base factors of the configuration set last (set_cfg)
 
 
 def _uc():
@@ -163,11 +233,28 @@ def _uc():
 
 
 def set_cfg(name):
-    _uc().reset_units(**CONFIGS[name])
+    spec = cfg_spec(name)
+    _uc().reset_units(**spec)
+    if 'seed' in spec:
+        # numericalunits' random units (third party): the five base units as drawn; everything else derived here
+        import numericalunits as nu
+        _BASE['now'] = (float(nu.m), float(nu.kg), float(nu.s), float(nu.C), float(nu.K))
+    else:
+        _BASE['now'] = own_base(spec)
 
 
 def restore_units():
     _uc().reset_units(**DEFAULT_CFG)
+    _BASE['now'] = own_base(DEFAULT_CFG)
+
+
+def own_name(name, base):
+    """value of the unit `name` in the working units with the base factors `base`."""
+    v, dim = SI_UNITS[name]
+    for b, p in zip(base, dim):
+        if p:
+            v *= b ** p
+    return v
 
 
 # ----------------------------------------------------------------------------------------
@@ -201,11 +288,21 @@ def _gen_arr(rng, lead, dt=None, trailing=None, bits=3, via='tree', scale=0):
     for s in shape:
         n *= s
     flavour = None
-    if dt == 'f':
+    if rng.random() < 0.07:
+        # falsy but valid: every element 0 / 0.0 / False / '' (the empty string survives the tree and JSON only)
+        flavour = 'zero'
+        if dt == 's' and via == 'xml':
+            dt = 'f'
+        data = [{'f': 0.0, 'i': 0, 'b': False, 's': ''}[dt]] * n
+    elif dt == 'f':
         r = rng.random()
         if r < 0.08:
             flavour = 'special'
             data = [rng.choice(SPECIAL_FLOATS) for _ in range(n)]
+        elif r < 0.16:
+            # float data whose values all happen to be whole numbers (charges +-1.0, 2.0: must stay float)
+            flavour = 'integral'
+            data = [float(rng.randint(-6, 6)) * 2.0 ** scale for _ in range(n)]
         else:
             data = [(cm.dyadic(rng, -8, 8, bits) if rng.random() < 0.7 else rng.uniform(-10, 10)) * 2.0 ** scale
                     for _ in range(n)]
@@ -230,7 +327,11 @@ def _gen_arr(rng, lead, dt=None, trailing=None, bits=3, via='tree', scale=0):
         a['flavour'] = flavour
     if a['form'] == 'narrow':
         # float32 / int32 input: only values both types hold exactly
-        if dt == 'f' and flavour is None and scale == 0:
+        if dt == 'f' and flavour in ('zero', 'integral') and scale == 0:
+            pass
+        elif dt == 'i' and flavour == 'zero':
+            pass
+        elif dt == 'f' and flavour is None and scale == 0:
             a['data'] = [cm.dyadic(rng, -8, 8, bits) for _ in range(n)]
         elif dt != 'i' or flavour is not None:
             a['form'] = 'c'
@@ -306,11 +407,58 @@ def clean_cell(vects):
     return [[Fraction(0) if abs(Fraction(x)) <= Fraction(1, 10 ** 9) * big else Fraction(x) for x in row] for row in vects]
 
 
+def clean_cij(C):
+    """what an ElasticConstants object holds after its Cij setter (documented clean-up): entries with
+    |x| <= 1e-9 * (largest entry) are 0."""
+    big = max(Fraction(x) for row in C for x in row)
+    return [[0.0 if abs(Fraction(x)) <= Fraction(1, 10 ** 9) * big else x for x in row] for row in C]
+
+
+def _gen_cfg(rng):
+    """a configuration name: one of CONFIGS or a generated keyword set (1-4 of length / mass / time / energy / charge
+    with units from CFG_POOL; with an energy unit at most two of length, mass, time, so that nothing is given twice)."""
+    if rng.random() < 0.65:
+        return rng.choice(list(CONFIGS))
+    keys = rng.sample(list(CFG_POOL), rng.randint(1, 4))
+    if 'energy' in keys and all(k in keys for k in ('length', 'mass', 'time')):
+        keys.remove(rng.choice(['length', 'mass', 'time']))
+    return 'cfg:' + ','.join(f'{k}={rng.choice(CFG_POOL[k])}' for k in CFG_POOL if k in keys)
+
+
 def _gen_cfgs(rng):
-    names = list(CONFIGS)
-    w1 = rng.choice(names)
-    w2 = w1 if rng.random() < 0.3 else rng.choice(names)
+    w1 = _gen_cfg(rng)
+    w2 = w1 if rng.random() < 0.3 else _gen_cfg(rng)
     return w1, w2
+
+
+def _cfg_table(name):
+    """name -> value table of a configuration from the harness's own unit table (keyword configurations only)."""
+    spec = cfg_spec(name)
+    if 'seed' in spec:
+        return None
+    base = own_base(spec)
+    return {n: own_name(n, base) for n in SI_UNITS}
+
+
+def _fit_cfgs(case):
+    """keep value / factor and value * factor inside the double range: a generated configuration under which a unit
+    of the case has a factor outside 1e-120 .. 1e120 is replaced by a fixed one (the unit expressions were generated
+    against those, see _sane)."""
+    for w in ('w1', 'w2'):
+        tab = _cfg_table(case[w])
+        if tab is None or not case[w].startswith('cfg:'):
+            continue
+        for u in _units_of(case):
+            if u is None or u == 'scaled':
+                continue
+            try:
+                v = abs(eval_ast(unit_ast(u), tab.__getitem__)[0])
+            except (OverflowError, ZeroDivisionError):
+                v = 0.0
+            if not (1e-120 < v < 1e120):
+                case[w] = 'nm-g-ps' if w == 'w1' else 'default'
+                break
+    return case
 
 
 def gen_uc(rng):
@@ -331,6 +479,8 @@ def gen_uc(rng):
     if arr['dt'] == 'f' and arr.get('flavour') is None and arr['form'] != 'narrow' and rng.random() < 0.25:
         # uc.model(value, unit, error=...): an uncertainty of the same shape, stored next to the value
         case['err'] = [cm.dyadic(rng, 0, 2, 4) * 2.0 ** scale for _ in arr['data']]
+        if rng.random() < 0.2:
+            case['err'] = [0.0 for _ in arr['data']]        # an uncertainty of exactly zero is a value, not "no error"
         case['err_form'] = rng.choice(FORMS[:-1])
     return case
 
@@ -356,7 +506,7 @@ def _gen_props(rng, natoms, ntypes, via='tree', scale=0, box=None):
     atype = [rng.randint(1, ntypes) for _ in range(natoms)]
     atype[rng.randrange(natoms)] = ntypes
     pos = _gen_arr(rng, [natoms], dt='f' if rng.random() < 0.9 else 'i', trailing=[3], via=via, scale=scale)
-    if pos.get('flavour'):
+    if pos.get('flavour') not in (None, 'zero', 'integral'):
         pos = _gen_arr(rng, [natoms], dt='f', trailing=[3], via=via, scale=scale)
         pos['data'] = [cm.dyadic(rng, -8, 8, 3) * 2.0 ** scale for _ in pos['data']]
         pos.pop('flavour', None)
@@ -370,6 +520,7 @@ def _gen_props(rng, natoms, ntypes, via='tree', scale=0, box=None):
                        for _ in range(3)]
                 for c in range(3):
                     pos['data'][3 * i + c] = box['origin'][c] + sum(rel[k] * box['vects'][k][c] for k in range(3))
+        pos.pop('flavour', None)
         pos['form'] = 'c' if pos['form'] == 'narrow' else pos['form']
     lu = [None, 'scaled', 'scaled', 'angstrom', 'nm', 'm', gen_dim_unit(rng, 'length'), gen_dim_unit(rng, 'length')]
     if pos['form'] == 'narrow' and pos['dt'] == 'f':
@@ -397,7 +548,8 @@ def _gen_again(rng, props, box=True):
     the configuration it was read under and read under the one it was written under."""
     edits = []
     for p in props:
-        if p['name'] == 'atype' or p['dt'] in 'sb' or p.get('form') in ('readonly', 'list', 'narrow') or p.get('flavour'):
+        if p['name'] == 'atype' or p['dt'] in 'sb' or p.get('form') in ('readonly', 'list', 'narrow') \
+                or p.get('flavour') in ('special', 'big', 'wild'):
             continue
         if rng.random() < 0.6:
             n = 1
@@ -434,6 +586,27 @@ def apply_again(case):
     return c2
 
 
+CALLS = ['prop_unit', 'prop_unit', 'lists', 'lists', 'units', 'units', 'names', 'default']
+
+
+def _gen_call(rng, props, sel):
+    """how the properties / units are handed to Atoms.model / System.model / dump: prop_unit dictionary, prop_name and
+    unit lists, the unit list ALONE (aligned with the object's own property order), the prop_name list alone, neither.
+    The last two say nothing about units: every unit of the case is None then (pos: the documented default angstrom).
+    With a selection the bare unit list / nothing at all is not a way to say it."""
+    call = rng.choice(CALLS)
+    if sel is not None and call in ('units', 'default'):
+        call = rng.choice(['prop_unit', 'lists', 'names'])
+    if call in ('names', 'default'):
+        if any(p['name'] == 'pos' and p.get('form') == 'narrow' and p['dt'] == 'f' for p in props):
+            return rng.choice(['prop_unit', 'lists'] if sel is not None else ['prop_unit', 'lists', 'units'])
+        for p in props:
+            p['unit'] = None
+        for e in sel or []:
+            e['unit'] = None
+    return call
+
+
 def gen_atoms(rng):
     natoms = rng.randint(1, 6)
     ntypes = rng.randint(1, 3)
@@ -452,6 +625,8 @@ def gen_atoms(rng):
         case['sel'] = [{'name': p['name'], 'unit': p['unit']} for p in sel]
     elif rng.random() < 0.4:
         case['again'] = _gen_again(rng, props, box=False)
+    case['call'] = _gen_call(rng, props, case.get('sel'))
+    case['positional'] = rng.random() < 0.3
     return case
 
 
@@ -469,8 +644,19 @@ def gen_sys(rng):
     nsym = rng.choice([0, ntypes, ntypes, ntypes, ntypes + 1, max(0, ntypes - 1)])
     symbols = [rng.choice(SYMBOLS) for _ in range(nsym)]
     natS = max(nsym, ntypes)
-    mode = rng.choice(['none', 'all', 'some', 'short'])
-    if mode == 'none':
+    if symbols and via != 'xml' and rng.random() < 0.08:
+        symbols[rng.randrange(nsym)] = ''            # (an empty symbol survives the tree and JSON, not XML text)
+    mode = rng.choice(['none', 'all', 'some', 'short', 'zero', 'zero'])
+    if mode == 'zero':
+        # a mass of exactly 0.0 (massless shell / ghost site) is a value, not a missing mass: every pattern of
+        # 0.0 with None, alone, and next to a non-zero mass
+        masses = [rng.choice([0.0, 0.0, None]) for _ in range(natS)]
+        masses[rng.randrange(natS)] = 0.0
+        if natS > 1 and rng.random() < 0.3:
+            masses[rng.choice([i for i in range(natS)])] = rng.randint(8, 800) / 8
+            if 0.0 not in masses:
+                masses[0 if masses[0] is None else -1] = 0.0
+    elif mode == 'none':
         masses = []
     elif mode == 'all':
         masses = [rng.randint(8, 800) / 8 for _ in range(natS)]
@@ -480,7 +666,10 @@ def gen_sys(rng):
         masses = [rng.uniform(1, 200) for _ in range(rng.randint(0, natS))]
     # masses handed over as numpy scalars / python ints (the object stores floats)
     mass_form = rng.choice([None, None, None, 'f32', 'i64', 'int'])
-    if mass_form == 'f32':
+    if mode == 'zero':
+        if mass_form in ('i64', 'int'):
+            masses = [None if m is None else float(int(m)) for m in masses]
+    elif mass_form == 'f32':
         masses = [None if m is None else rng.randint(8, 800) / 8 for m in masses]
     elif mass_form in ('i64', 'int'):
         masses = [None if m is None else float(rng.randint(1, 240)) for m in masses]
@@ -495,16 +684,19 @@ def gen_sys(rng):
         io = 'stringio'             # xmltodict refuses tempfile's wrapper object (third party): JSON only
     case = {'kind': 'sys', 'via': via, 'w1': w1, 'w2': w2, 'sel': sel, 'scale': scale,
             'box': box, 'box_unit': _len_unit(rng) if abs(scale) <= 100 else None,
-            'pbc': [rng.random() < 0.6 for _ in range(3)], 'symbols': symbols, 'masses': masses, 'mass_form': mass_form,
+            # (all three False - a cluster - and all three True included)
+            'pbc': rng.choice([[False] * 3, [True] * 3] + [[rng.random() < 0.6 for _ in range(3)]] * 5), 'symbols': symbols, 'masses': masses, 'mass_form': mass_form,
             'natoms': natoms, 'props': props,
-            'call': rng.choice(['prop_unit', 'prop_unit', 'lists', 'default']),
+            'call': _gen_call(rng, props, sel), 'positional': rng.random() < 0.3,
             'io': io,
             # the target file exists already and is longer than what is written now
             'prefill': io == 'path' and rng.random() < 0.5,
             'fmtcase': rng.choice([None, None, None, 'upper', 'title']), 'indent': rng.choice([None, None, None, 0, 1, 4]),
             # the system as one of several entries of a larger record: load(..., key=, index=)
-            'record': rng.choice([None, None, {'key': 'atomic-system', 'index': 1}, {'key': 'final-system', 'index': 0},
-                                  {'key': 'relaxed-system', 'index': 2}]),
+            # ('deep': the entries with that key sit at different depths of the record, the written one innermost)
+            'record': rng.choice([None, None, None, {'key': 'atomic-system', 'index': 1}, {'key': 'final-system', 'index': 0},
+                                  {'key': 'relaxed-system', 'index': 2}, {'key': 'atomic-system', 'index': 0, 'deep': 2},
+                                  {'key': 'atomic-system', 'index': 1, 'deep': 1}]),
             'override': None}
     if rng.random() < 0.2:
         # documented reader options: symbols= of load / System(model=), pbc= and masses= of System(model=)
@@ -517,7 +709,7 @@ def gen_sys(rng):
             # (all three False - a cluster - is a valid, falsy value)
             case['override'] = {'pbc': [False] * 3 if rng.random() < 0.4 else [rng.random() < 0.5 for _ in range(3)]}
         else:
-            case['override'] = {'masses': [rng.randint(8, 800) / 8 for _ in range(nt)]}
+            case['override'] = {'masses': [rng.choice([0.0, rng.randint(8, 800) / 8]) for _ in range(nt)]}
     if sel is None and rng.random() < 0.35:
         case['again'] = _gen_again(rng, props)
     return case
@@ -613,11 +805,38 @@ def gen_ec(rng):
     if form == 'isotropic':
         k['C11'] = k['C12'] + 2 * num(10, 75)
     r = rng.random()
+    C = ec_form_matrix(form, k)
+    kw = k if (rng.random() < 0.3 and form != 'isotropic') else None
+    perturb = None
+    big = max(abs(x) for row in C for x in row)
+    r2 = rng.random()
+    if kw is None and r2 < 0.12:
+        # leftovers of a rotation / an average in the empty slots: negligible against the largest constant (the Cij
+        # setter zeroes what is below 1e-9 of it; the expectation stays the normal form, within its tolerance)
+        perturb = 'negligible'
+        for i in range(6):
+            for j in range(i + 1, 6):
+                if C[i][j] == 0.0 and rng.random() < 0.5:
+                    C[i][j] = C[j][i] = rng.choice([1e-17, -1e-17, -3e-17, 2e-13]) * big
+    elif kw is None and r2 < 0.3:
+        # constants a hair off a higher symmetry: small but significant entries (1e-7, 1e-5 of the largest constant,
+        # either sign) in the empty slots and / or one constant changed by 1e-6 .. 1e-11 relative - the tensor is
+        # triclinic now, and every one of its 21 constants has to come back
+        perturb = 'near'
+        for i in range(6):
+            for j in range(i + 1, 6):
+                if C[i][j] == 0.0 and rng.random() < 0.3:
+                    C[i][j] = C[j][i] = rng.choice([1e-7, -1e-7, 1e-5, -2e-6]) * big
+        for _ in range(rng.randint(1, 2)):
+            i, j = rng.randrange(6), rng.randrange(6)
+            if C[i][j] != 0.0:
+                C[i][j] = C[j][i] = C[i][j] * (1 + rng.choice([1e-6, -1e-8, 3e-11, -1e-6]))
+        form = 'triclinic'
     inform = sorted(EC_INFORM[form])
     cs = rng.choice(inform) if r < 0.6 else (rng.choice(EC_SYSTEMS) if r < 0.97 else rng.choice(['Monoclinic', 'cubics']))
     w1, w2 = _gen_cfgs(rng)
     return {'kind': 'ec', 'via': rng.choice(['tree', 'json', 'xml']), 'w1': w1, 'w2': w2, 'form': form,
-            'kw': k if (rng.random() < 0.3 and form != 'isotropic') else None, 'C': ec_form_matrix(form, k),
+            'kw': kw, 'C': C, 'perturb': perturb,
             'unit': gen_dim_unit(rng, 'pressure') if rng.random() < 0.4 else rng.choice(UNITS['pressure'] + [None]),
             'cs': cs}
 
@@ -752,7 +971,7 @@ def _units_of(case):
 #   expr    := power (('*' | '/') power)*        left to right, '*' and '/' of equal precedence
 #   power   := primary ('^' number)?             binds tighter than '*' '/'
 #   primary := NAME | number | '(' expr ')'
-_TOK = re.compile(r'\s*(?:([A-Za-z_][A-Za-z_0-9]*)|(-?(?:[0-9]+\.?[0-9]*|\.[0-9]+))|([*/^()]))')
+_TOK = re.compile(r'\s*(?:([^\W\d]\w*)|(-?(?:[0-9]+\.?[0-9]*|\.[0-9]+))|([*/^()]))')
 
 
 def unit_ast(u):
@@ -814,7 +1033,7 @@ def eval_ast(e, env):
     """(value, relative rounding bound in units of 2^-53) of the expression over `env(name)`."""
     k = e[0]
     if k == 'name':
-        return float(env(e[1])), 0.0
+        return float(env(e[1])), NAME_ULPS
     if k == 'num':
         return e[1], 0.0
     if k == 'pow':
@@ -826,15 +1045,18 @@ def eval_ast(e, env):
 
 
 def _live(name):
-    import numericalunits as nu
-    return getattr(nu, name)
+    """value of a unit name under the *current* working units (those set_cfg set last), from the harness's own table
+    and the base factors of the configuration - never from uc.unit / numericalunits' derived units."""
+    return own_name(unicodedata.normalize('NFC', name), _BASE['now'])
 
 
 def own_factor(u):
-    """factor of the unit expression `u` under the *current* working units, evaluated here over the live
-    numericalunits attributes with the standard precedence - independent of uc.parse / uc.unit, so neither a stale
-    or cached factor nor a parser that orders the operators differently can hide behind the harness measuring
-    factors with the same function."""
+    """factor of the unit expression `u` under the *current* working units, evaluated here with the standard
+    precedence over the harness's own unit table (SI value and dimension of every name; base factors from the SI
+    values of the chosen working units, own_base) - independent of uc.parse, uc.unit and of what uc.reset_units left
+    in numericalunits, so neither a stale or cached factor, nor a parser that orders the operators differently, nor a
+    unit table whose entries do not belong to one system of working units can hide behind the harness measuring
+    factors with the same functions."""
     return eval_ast(unit_ast(u), _live)[0]
 
 
@@ -848,20 +1070,17 @@ def unit_ulps(u):
 
 # ---- generation of compound unit expressions -----------------------------------------------------------------
 UNIT_NAMES = ['angstrom', 'nm', 'm', 'cm', 'pm', 'GPa', 'MPa', 'bar', 'eV', 'J', 'mJ', 'mol', 'nN', 'e', 'C',
-              'amu', 'g', 'kg', 'ps', 's', 'fs', 'ns']
+              'amu', 'g', 'kg', 'ps', 's', 'fs', 'ns', 'K', 'Å', 'N', 'Pa', 'A', 'V', 'THz', 'm', 'kg', 's']
 _SNAP = {}
 
 
 def _snapshots():
-    """name -> value tables of every configuration (only to keep generated factors in a sane range)."""
+    """name -> value tables of every fixed keyword configuration (only to keep generated factors in a sane range)."""
     if not _SNAP:
-        import numericalunits as nu
-        try:
-            for c in CONFIGS:
-                set_cfg(c)
-                _SNAP[c] = {n: float(getattr(nu, n)) for n in UNIT_NAMES}
-        finally:
-            restore_units()
+        for c in CONFIGS:
+            tab = _cfg_table(c)
+            if tab is not None:
+                _SNAP[c] = tab
     return _SNAP
 
 
@@ -871,7 +1090,7 @@ def _sane(u):
             v = eval_ast(unit_ast(u), tab.__getitem__)[0]
         except (OverflowError, ZeroDivisionError):
             return False
-        if not (1e-90 < abs(v) < 1e90):
+        if isinstance(v, complex) or not (1e-90 < abs(v) < 1e90):
             return False
     return True
 
@@ -917,20 +1136,25 @@ def gen_dim_unit(rng, dim):
     """a compound expression of the given dimension ('length' or 'pressure') built from templates in which a
     cancelling factor X appears on either side of the base unit, in every operator order."""
     L = lambda: rng.choice(UNITS['length'])   # noqa: E731
-    X = lambda: rng.choice(['ps', 'fs', 'eV', 'amu', 'GPa', 'e', 'nm', 'J', 's'])   # noqa: E731
+    # (the cancelling factor: prefixed / derived units and the literal SI base units m, kg, s, C, K)
+    X = lambda: rng.choice(['ps', 'fs', 'eV', 'amu', 'GPa', 'e', 'nm', 'J', 's', 's', 'kg', 'm', 'C', 'K'])   # noqa: E731
     for _ in range(50):
         x = X()
         if dim == 'length':
             l1, l2 = L(), L()
             u = rng.choice(['{l1}', '{l1}/{x}*{x}', '{x}*{l1}/{x}', '{l1}*{x}/{x}', '{x}/({x}/{l1})', '{l1}^3/{l2}^2',
                             '({l1}*{x})/{x}', '{l1}^2/{l2}', '1/{l1}^-1', '{l1}/{l2}*{l2}', '2*{l1}/2',
-                            '{l1}/{x}^2*{x}*{x}', 'eV/GPa/{l1}^2', '(eV/GPa)^0.5/{l1}^0.5', '{l1}/({x}*{x})*{x}^2'])
-            u = u.format(l1=l1, l2=l2, x=x)
+                            '{l1}/{x}^2*{x}*{x}', 'eV/GPa/{l1}^2', '(eV/GPa)^0.5/{l1}^0.5', '{l1}/({x}*{x})*{x}^2',
+                            '{l1}/s*s', '{l1}*s^-1*s', 'J/N*{l1}/m',
+                            '(J*s^2/kg)^0.5*{l1}/m', 'kg*{l1}/kg'])
+            u = u.format(l1=l1, l2=l2, x=x, t=rng.choice(['s', 'ps', 'fs', 'ns']))
         else:
             p, l1, l2, l3 = rng.choice(UNITS['pressure'][:1] + ['MPa', 'bar']), L(), L(), L()
             u = rng.choice(['{p}', 'eV/{l1}^3', 'nN/{l1}^2', 'nN/{l1}/{l2}', '{p}/{x}*{x}', 'J/{l1}^2/{l2}',
                             'eV/({l1}*{l2}*{l3})', 'eV/{l1}^3*{x}/{x}', '{x}*{p}/{x}', 'J/m^3*{l1}/{l2}',
-                            '({p})', '{p}*({x}/{x})', 'nN*{l1}/{l2}^3', 'eV/{l1}^2*{l2}^-1'])
+                            '({p})', '{p}*({x}/{x})', 'nN*{l1}/{l2}^3', 'eV/{l1}^2*{l2}^-1',
+                            'kg/({l1}*s^2)', 'kg/{l1}/s^2', 'kg*m/s^2/{l1}^2', 'N/{l1}/{l2}', 'g/({l1}*ps^2)',
+                            'amu/{l1}/fs^2', 'kg*{l1}^-1*s^-2', 'J/{l1}^3', 'C*V/{l1}^3'])
             u = u.format(p=p, l1=l1, l2=l2, l3=l3, x=x)
         if rng.random() < 0.1:
             u = u.replace('*', ' * ').replace('/', ' / ')
@@ -1119,19 +1343,35 @@ def _edit_in_place(atoms, case):
         a[np.unravel_index(e['at'], a.shape)] = e['value'] * k if dts[e['name']] == 'f' else e['value']
 
 
-def _prop_kw(case, r):
-    """keyword arguments that select the properties / units of a System or Atoms model call."""
+def _prop_kw(case, r=None):
+    """keyword arguments that select the properties / units of a System or Atoms model call, in the call form of the
+    case: prop_unit dictionary, prop_name + unit lists, the unit list alone (object's own property order), the
+    prop_name list alone (no units), nothing."""
     chosen = case['sel'] if case.get('sel') is not None else case['props']
     names = [p['name'] for p in chosen]
     units = [p['unit'] for p in chosen]
     call = case.get('call', 'prop_unit')
-    if case.get('sel') is not None and call == 'default':
+    if case.get('sel') is not None and call in ('default', 'units'):
         call = 'prop_unit'
-    if call == 'default' and all(u is None for u in units):
+    if call in ('default', 'names') and not all(u is None for u in units):
+        call = 'prop_unit'
+    if call == 'default':
         return {}
+    if call == 'names':
+        return dict(prop_name=names)
+    if call == 'units':
+        return dict(unit=units)
     if call == 'lists':
         return dict(prop_name=names, unit=units)
     return dict(prop_unit=dict(zip(names, units)))
+
+
+def _model_call(obj, case, kw, **first):
+    """obj.model(...) with the arguments by keyword or, for a case marked `positional`, in the documented positional
+    order: System.model(box_unit, prop_name, unit, prop_unit), Atoms.model(prop_name, unit, prop_unit)."""
+    if not case.get('positional'):
+        return obj.model(**first, **kw)
+    return obj.model(*first.values(), kw.get('prop_name'), kw.get('unit'), kw.get('prop_unit'))
 
 
 def _kw_copy(kw):
@@ -1158,10 +1398,10 @@ def _sys_roundtrip(case, s, r, path=None):
         fmtkw = _prop_kw(case, r)
         kw0 = _kw_copy(fmtkw)
         if via == 'tree':
-            first = s.model(box_unit=case['box_unit'], **fmtkw)
+            first = _model_call(s, case, fmtkw, box_unit=case['box_unit'])
             kept = _tree_text(first)
             _scribble_tree(first)                   # a returned tree belongs to the caller
-            model = s.model(box_unit=case['box_unit'], **fmtkw)
+            model = _model_call(s, case, fmtkw, box_unit=case['box_unit'])
             if _tree_text(model) != kept:
                 r.side.append(('write-twice', 'System.model() called twice (the first tree overwritten by the caller in '
                                'between) returns different trees'))
@@ -1253,6 +1493,18 @@ def _sys_roundtrip(case, s, r, path=None):
             # entries are a different (default) system
             decoy = am.System().model()['atomic-system']
             mine = DM(text)['atomic-system']
+            if rec.get('deep'):
+                # entries with the key at different depths (document order = index): `index` decoys first, the
+                # written system `deep` levels further in
+                inner = DM([(rec['key'], mine)])
+                for lvl in range(rec['deep']):
+                    inner = DM([('id', 'level-%d' % lvl), ('stage', inner)])
+                record = DM([('calculation', DM([('id', 'c10')] + [('run-%d' % i, DM([(rec['key'], decoy)]))
+                                                                      for i in range(rec['index'])] + [('final', inner)]))])
+                rtext = record.json() if via == 'json' else record.xml()
+                if rec['index'] == 0 and case['natoms'] % 2 == 0 and not ov:
+                    return am.System(model=rtext)       # the constructor finds the (only) system wherever it sits
+                return am.load('system_model', rtext, key=rec['key'], index=rec['index'], **ov)
             entries = [decoy] * rec['index'] + [mine] + [decoy]
             record = DM([('calculation', DM([('id', 'c10'), (rec['key'], entries)]))])
             rtext = record.json() if via == 'json' else record.xml()
@@ -1299,18 +1551,17 @@ def _atoms_roundtrip(case, a, r):
     r.fW = _factors(case)
     try:
         before = _snap_atoms(a)
-        chosen = case['sel'] if case.get('sel') is not None else case['props']
-        pu = {p['name']: p['unit'] for p in chosen}
-        pu0 = dict(pu)
-        first = a.model(prop_unit=pu)
+        pu = _prop_kw(case)
+        pu0 = _kw_copy(pu)
+        first = _model_call(a, case, pu)
         kept = _tree_text(first)
         _scribble_tree(first)
-        model = a.model(prop_unit=dict(pu0))
+        model = _model_call(a, case, _kw_copy(pu0))
         if _tree_text(model) != kept:
             r.side.append(('write-twice', 'Atoms.model() called twice (the first tree overwritten by the caller in between) '
                            'returns different trees'))
         if pu != pu0:
-            r.side.append(('arguments-modified', f'Atoms.model changed the prop_unit dictionary it was given: {pu0} -> {pu}'))
+            r.side.append(('arguments-modified', f'Atoms.model changed the arguments it was given: {pu0} -> {pu}'))
         if _snap_atoms(a) != before:
             r.side.append(('write-modifies-object', 'Atoms.model changed the Atoms object (bitwise comparison of every '
                            'property before / after)'))
@@ -2025,7 +2276,7 @@ def _cases(rng, n):
     tot = sum(w for _, _, w in GENS)
     for _, g, w in GENS:
         for _ in range(max(1, n * w // tot)):
-            yield g(rng)
+            yield _fit_cfgs(g(rng))
 
 
 def _root(case):
@@ -2058,6 +2309,31 @@ def _classes(case, cover):
         hit('output: ' + case.get('io', 'str'))
     if case['kind'] == 'refuse':
         hit('refusal: ' + case['which'])
+    if case['kind'] in ('atoms', 'sys'):
+        hit('call form: ' + case.get('call', 'prop_unit') + (' (positional)' if case.get('positional') and case['via'] == 'tree' else ''))
+    if case['kind'] == 'sys':
+        if any(m == 0.0 for m in case['masses'] if m is not None):
+            hit('masses: exact 0.0 (' + ('with None' if None in case['masses'] else 'no None') + ')')
+        if not any(case['pbc']):
+            hit('pbc: all False')
+        if '' in case['symbols']:
+            hit("symbols: ''")
+        if (case.get('record') or {}).get('deep'):
+            hit('record: system nested %d levels deep' % case['record']['deep'])
+    if case['kind'] == 'ec' and case.get('perturb'):
+        hit('elastic constants: ' + case['perturb'] + ' entries')
+    for w in {case['w1'], case['w2']}:
+        spec = cfg_spec(w)
+        if 'time' in spec and spec['time'] != 's':
+            hit('working units: named time unit')
+        if w.startswith('cfg:'):
+            hit('working units: generated keyword set')
+    for u in _units_of(case):
+        if u not in (None, 'scaled'):
+            if re.search(r'(?<![A-Za-z])(m|kg|s|C|K)(?![A-Za-z])', u):
+                hit('storage unit: literal SI base unit')
+            if not u.isascii():
+                hit('storage unit: non-ASCII name')
 
 
 def _brief(case):
@@ -2393,6 +2669,12 @@ def oracle(ctx, case, r: RealRun):
     k, via = case['kind'], case['via']
     rp = {'case': _root(case)}
     tag = f"{k} via {via} (write {case['w1']}, read {case['w2']})"
+    if k in ('uc', 'box', 'ec'):
+        tag += f" stored in unit {case['unit']!r}"
+    if k in ('atoms', 'sys') and case.get('call') not in (None, 'prop_unit'):
+        tag += ' [units handed over as ' + {'lists': 'prop_name= and unit= lists', 'units': 'a unit= list alone', 'names':
+                                             'a prop_name= list alone', 'default': 'nothing (defaults)'}[case['call']] \
+            + (', positionally' if case.get('positional') and via == 'tree' else '') + ']'
     if 'second_of' in case:
         tag += ' [second dump of the same object, after in-place edits ' + json.dumps(case['second_of']['again'])[:160] + ']'
     if k == 'ec' and case['cs'] not in EC_SYSTEMS and (r.write_error or '').startswith('ValueError: Invalid crystal_system'):
@@ -2458,7 +2740,7 @@ def oracle(ctx, case, r: RealRun):
         if cs in EC_INFORM.get(form, ()):
             # a crystal already in the normal form of `cs`: the constants come back unchanged
             ok &= _check_array(ctx, f'ec:{via}:{cs}', f"{tag} Cij of a {form} crystal stored as {cs}", case, r.read.Cij,
-                               {'dt': 'f', 'shape': [6, 6], 'data': [x for row in case['C'] for x in row]}, rc, 2 * rt, atol, False)
+                               {'dt': 'f', 'shape': [6, 6], 'data': [x for row in clean_cij(case['C']) for x in row]}, rc, 2 * rt, atol, False)
         if 'existing_error' in r.extra:
             ctx.violate(f'ec:{via}:existing-raises', f"{tag}: reading the model into an existing ElasticConstants raised "
                         f"{r.extra['existing_error']}", rp)
@@ -2547,6 +2829,15 @@ def oracle(ctx, case, r: RealRun):
     return ok
 
 
+# cases every run looks at, whatever the seed (the first is the open finding uc:xml:length-1-vector-read-as-scalar)
+FIXED_CASES = [
+    {'kind': 'uc', 'via': 'xml', 'w1': 'default', 'w2': 'nm-g-ps', 'unit': 'angstrom',
+     'arr': {'dt': 'f', 'shape': [1], 'data': [5.0], 'form': 'c'}},
+    {'kind': 'uc', 'via': 'json', 'w1': 'time-ps', 'w2': 'default', 'unit': 'm/s',
+     'arr': {'dt': 'f', 'shape': [2], 'data': [100.0, -200.0], 'form': 'c'}},
+]
+
+
 def search(ctx, broken):
     rng = random.Random(ctx.seed * 7919 + 10)
     N = ctx.n(500, 6000) * (3 if broken else 1)
@@ -2557,7 +2848,7 @@ def search(ctx, broken):
             r = run_real(case)
             for c, rr in generations(case, r):
                 oracle(ctx, c, rr)
-        for case in _cases(rng, N):
+        for case in FIXED_CASES + list(_cases(rng, N)):
             r = run_real(case)
             for c, rr in generations(case, r):
                 oracle(ctx, c, rr)
